@@ -26,6 +26,11 @@ RULES = {
     'C15.h': 'the acknowledgement is sent through a fresh clone of the session sender: a bounded futures channel guarantees one slot per '
              'Sender handle, so a long-lived handle is refused once the queue is full (a burst of replicated commands whose replies are '
              'not drained yet) and the refusal is only logged — the operation was applied but stays pending on the primary for ever',
+    'C15.i': 'whoever reads pending_opps waits for it: no try_read / try_write on Databases.pending_opps — a report that falls back to 0 when '
+             'the replication thread holds the map says "nothing pending" while operations are registered and unacknowledged',
+    'C15.j': 'the reader of a node link hands each line to the dispatcher once: the line buffer that read_line APPENDS to is cleared on '
+             'every path from the read back to the loop head — a `continue` around the clear makes every later line (each `ack <id> <name>`) '
+             'arrive glued to the earlier ones and be swallowed: the acknowledgements are never counted',
 }
 
 PENDING = 'std::collections::HashMap::<u64, nundb::bo::ReplicationMessage>::'
@@ -44,6 +49,8 @@ def run(ck, m):
     _run(ck, m)
     self_name_agrees(ck, m)
     ack_through_fresh_handle(ck, m)
+    pending_map_read_blocking(ck, m)
+    link_reader_clears_its_buffer(ck, m)
 
 
 def _run(ck, m):
@@ -342,6 +349,59 @@ def ack_through_fresh_handle(ck, m):
                   'queue holds more replies than the buffer (a burst of rp commands read before their replies are written) try_send answers '
                   '"full", the ack is dropped with a log line, and the primary keeps the operation pending although it was applied', b.loc(bi))
     ck.floor('C15.h', n, 1, 'sends of the acknowledgement line')
+
+
+def pending_map_read_blocking(ck, m):
+    """C15.i — see RULES"""
+    from nl.locks import lock_id_of
+    P = m.prog
+    TRY = ('std::sync::RwLock::try_read', 'std::sync::RwLock::try_write', 'std::sync::Mutex::try_lock')
+    n, bad = 0, []
+    for b in P.user_bodies():
+        if b.id.startswith(('nundb::client::', 'nundb::command_line::')):
+            continue
+        for bi, t in b.calls():
+            d = callee_decl(t)
+            if d in TRY + ('std::sync::RwLock::read', 'std::sync::RwLock::write') and t['args'] and 'Databases.pending_opps' in lock_id_of(b, t['args'][0]):
+                n += 1
+                if d in TRY:
+                    bad.append('%s@%s' % (short(b.id), b.loc(bi)))
+    ck.ob('C15.i', 'pending_opps', 'no-try-lock', not bad,
+          'every access of pending_opps takes the lock and waits (%d accesses)' % n if not bad else
+          'pending_opps is read with a try-lock at %s: when the replication thread holds the map (it does while it registers or acknowledges) '
+          'the fallback value is reported — `pending_ops: 0` while an operation is registered and nobody has acknowledged it' % bad, bad[0] if bad else '')
+    ck.floor('C15.i', n, 4, 'lock acquisitions of Databases.pending_opps')
+
+
+def link_reader_clears_its_buffer(ck, m):
+    """C15.j — see RULES"""
+    from props.C07 import natural_loops
+    P = m.prog
+    pr = m.reentry_names()
+    n = 0
+    for b in P.user_bodies():
+        if b.id.startswith(('nundb::client::', 'nundb::command_line::')):
+            continue
+        rls = [bi for bi, t in b.calls() if callee_decl(t).endswith('read_line')]
+        if not rls or not any(callee(t) in pr for _, t in b.calls()):
+            continue
+        clears = {bi for bi, t in b.calls() if callee_decl(t) == 'std::string::String::clear'}
+        fresh = {bi for bi, t in b.calls() if callee_decl(t) in ('std::string::String::new', 'std::string::String::with_capacity')}
+        for h, body in natural_loops(b):
+            for r in [x for x in rls if x in body]:
+                # a buffer created inside the loop needs no clear
+                if any(f in body and b.dominates(f, r) for f in fresh):
+                    continue
+                n += 1
+                back = b.reach_from([r], stop=lambda y: y in clears or y not in body)
+                skips = r in back or any(h == y for y in back)
+                ck.ob('C15.j', short(b.id), 'line-buffer-cleared-every-iteration', not skips,
+                      'every path from the read of a line back to the loop head clears the buffer' if not skips else
+                      'the link reader can start the next read_line without clearing the buffer the previous line is still in (a `continue` around '
+                      'the clear): read_line appends, so after the first such line every later line — every `ack <id> <name>` of that node — reaches '
+                      'the dispatcher glued to the earlier text and is not recognised; the acknowledgements are never counted and the count never '
+                      'returns to zero', b.loc(r))
+    ck.floor('C15.j', n, 1, 'line reads of a link reader that reuse one buffer')
 
 
 def self_name_agrees(ck, m, rule='C15.g'):
